@@ -1211,53 +1211,31 @@ impl DhtNetworkManager {
             hex::encode(key)
         );
 
-        let mut seen_peer_ids: HashSet<String> = HashSet::new();
+        // A peer is one entry whatever source it comes from: entries are keyed by DHT key, and
+        // named by the transport-level peer id (the id `send_message` understands) whenever
+        // the peer is known to the transport bookkeeping.
+        let mut seen_keys: HashSet<[u8; 32]> = HashSet::new();
         let mut all_nodes: Vec<DHTNode> = Vec::new();
 
-        // 1. Check local routing table
-        {
-            let dht_guard = self.dht.read().await;
-            match dht_guard.find_nodes(&DhtKey::from_bytes(*key), count).await {
-                Ok(nodes) => {
-                    for node in nodes {
-                        let id = node.id.to_string();
-                        if self.is_local_peer_id(&id) {
-                            continue;
-                        }
-                        if seen_peer_ids.insert(id.clone()) {
-                            all_nodes.push(DHTNode {
-                                peer_id: id,
-                                address: node.address,
-                                distance: None,
-                                reliability: node.capacity.reliability_score,
-                                cached_dht_key: Some(DhtKey::from_bytes(*node.id.as_bytes())),
-                            });
-                        }
-                    }
-                }
-                Err(e) => {
-                    warn!("find_nodes failed for key {}: {e}", hex::encode(key));
-                }
-            }
-        }
-
-        // 2. Add connected peers
+        // 1. Connected peers
+        let mut peer_id_by_key: HashMap<[u8; 32], PeerId> = HashMap::new();
         {
             let peers = self.dht_peers.read().await;
             for (peer_id, peer_info) in peers.iter() {
+                peer_id_by_key.insert(peer_info.dht_key, peer_id.clone());
                 if !peer_info.is_connected {
                     continue;
                 }
                 if self.is_local_peer_id(peer_id) {
                     continue;
                 }
-                if !seen_peer_ids.insert(peer_id.clone()) {
-                    continue;
-                }
                 let address = match peer_info.addresses.first() {
                     Some(a) => a.to_string(),
                     None => continue,
                 };
+                if !seen_keys.insert(peer_info.dht_key) {
+                    continue;
+                }
                 all_nodes.push(DHTNode {
                     peer_id: peer_id.clone(),
                     address,
@@ -1265,6 +1243,41 @@ impl DhtNetworkManager {
                     reliability: peer_info.reliability_score,
                     cached_dht_key: Some(DhtKey::from_bytes(peer_info.dht_key)),
                 });
+            }
+        }
+
+        // 2. Local routing table (every entry: the cut to `count` happens after the merge)
+        {
+            let dht_guard = self.dht.read().await;
+            match dht_guard
+                .find_nodes(&DhtKey::from_bytes(*key), usize::MAX)
+                .await
+            {
+                Ok(nodes) => {
+                    for node in nodes {
+                        let node_key = *node.id.as_bytes();
+                        let id = peer_id_by_key
+                            .get(&node_key)
+                            .cloned()
+                            .unwrap_or_else(|| node.id.to_string());
+                        if self.is_local_peer_id(&id) || node_key == *self.local_dht_key.as_bytes()
+                        {
+                            continue;
+                        }
+                        if seen_keys.insert(node_key) {
+                            all_nodes.push(DHTNode {
+                                peer_id: id,
+                                address: node.address,
+                                distance: None,
+                                reliability: node.capacity.reliability_score,
+                                cached_dht_key: Some(DhtKey::from_bytes(node_key)),
+                            });
+                        }
+                    }
+                }
+                Err(e) => {
+                    warn!("find_nodes failed for key {}: {e}", hex::encode(key));
+                }
             }
         }
 
